@@ -1,1 +1,905 @@
-//! placeholder
+//! Engine E5 for C02: generated programs of macro call sites.
+//!
+//! A `Site` is the serialisable spec of ONE call site of `emit::props!`, `emit::evt!` (and the
+//! levelled `*_evt!`), `emit::emit!` (and `debug!`..`error!`, always with an explicit `rt`), the
+//! `evt:` form of `emit!`, or `emit::format!`, together with everything the generator knows about it
+//! (final key names, values). `render` turns sites into a Rust source file whose functions build the
+//! collection with the real macro and judge it with `gen_support.rs` (the C02 oracle, compiled into
+//! the program). `Runner` writes the cargo project, compiles it against the emit tree, runs it and
+//! parses one `SITE <i> ok|FAIL <sig> <detail>` line per site.
+
+use std::cell::RefCell;
+use std::collections::{BTreeMap, HashMap};
+use std::path::PathBuf;
+use std::process::Command;
+
+use serde::{Deserialize, Serialize};
+use vcore::proptest::prelude::*;
+use vcore::{pick, Cx, Res};
+
+// NOTE: `tools/mutant.sh` re-points this path at its scratch copy of the repository.
+const REPO: &str = "/repo";
+const SUPPORT_RS: &str = include_str!("gen_support.rs");
+const HARNESS_DIR: &str = concat!(env!("CARGO_MANIFEST_DIR"), "/..");
+
+#[derive(Serialize, Deserialize, Debug, Clone, Copy, PartialEq)]
+pub enum Kind {
+    Props,
+    Evt,
+    Emit,
+    EmitEvt,
+    Format,
+}
+
+#[derive(Serialize, Deserialize, Debug, Clone, Copy, PartialEq)]
+pub enum Capture {
+    Default,
+    AsDebug,
+    AsDisplay,
+    AsValue,
+}
+
+#[derive(Serialize, Deserialize, Debug, Clone, PartialEq)]
+pub enum SVal {
+    I(i64),
+    S(String),
+    B(bool),
+    /// the float `n + 0.5` (Display and Debug agree on it)
+    F(i32),
+}
+
+#[derive(Serialize, Deserialize, Debug, Clone, Copy, PartialEq)]
+pub enum Place {
+    /// `{k}` in the template plus a trailing `k: expr` carrying the attributes
+    Hole,
+    /// `{k}` in the template only (attributes inside the hole), value from a local named `k`
+    HoleOnly,
+    /// `{k: expr}` in the template (attributes inside the hole)
+    HoleInline,
+    /// `k: expr` after the template / in `props!`
+    Trailing,
+    /// `k` after the template / in `props!`, value from a local named `k`
+    TrailingShorthand,
+}
+
+#[derive(Serialize, Deserialize, Debug, Clone, PartialEq)]
+pub struct Key {
+    pub ident: String,
+    /// written as `r#ident`
+    pub raw: bool,
+    /// final name and attribute form: 0 `#[emit::key("n")]`, 1 `#[emit::key(name: "n")]`, 2 `#[emit::key(name: CONST)]`
+    pub rename: Option<(String, u8)>,
+    /// `#[emit::optional]` with `Some(&v)` (true) or `None` (false)
+    pub optional: Option<bool>,
+    /// `#[cfg(verif_on)]` (true: compiled in) or `#[cfg(verif_off)]` (false: compiled out)
+    pub cfg: Option<bool>,
+    pub capture: Capture,
+    pub value: SVal,
+    pub place: Place,
+    /// rotation of the attribute list
+    pub attr_order: u8,
+    /// value written as a literal (true) or through a local (false) where the place allows both
+    pub literal: bool,
+}
+
+impl Key {
+    pub fn final_name(&self) -> &str {
+        self.rename.as_ref().map(|r| r.0.as_str()).unwrap_or(&self.ident)
+    }
+
+    pub fn present(&self) -> bool {
+        self.cfg != Some(false) && self.optional != Some(false)
+    }
+
+    fn in_template(&self) -> bool {
+        matches!(self.place, Place::Hole | Place::HoleOnly | Place::HoleInline)
+    }
+
+    fn display(&self) -> String {
+        match (&self.value, self.capture) {
+            (SVal::I(v), _) => v.to_string(),
+            (SVal::B(v), _) => v.to_string(),
+            (SVal::F(n), Capture::AsDebug) => format!("{:?}", *n as f64 + 0.5),
+            (SVal::F(n), _) => format!("{}", *n as f64 + 0.5),
+            (SVal::S(s), Capture::AsDebug) => format!("{s:?}"),
+            (SVal::S(s), _) => s.clone(),
+        }
+    }
+}
+
+#[derive(Serialize, Deserialize, Debug, Clone, PartialEq)]
+pub struct Site {
+    pub kind: Kind,
+    /// 0 plain macro, 1..=4 the debug/info/warn/error flavour (adds a `lvl` key); not for props!/format!
+    pub level: u8,
+    /// Emit kinds: 0 `rt: &rt`, 1 `rt: rt`, 2 `rt`
+    pub rt_form: u8,
+    /// Emit kinds: 0 a generic emitter (judges the un-erased event), 1 `emitter::from_fn` (erased event)
+    pub emitter: u8,
+    /// props!/evt!: bound with `let` (true) or `match` (false)
+    pub let_form: bool,
+    pub keys: Vec<Key>,
+    /// `props:` base collection: form 0 array expression / local array, 1 `emit::props!{..}` local, 2 `&local`
+    pub base: Option<(u8, Vec<(String, i64)>)>,
+    /// ambient frame entered around an `emit!` site
+    pub ambient: Vec<(String, i64)>,
+}
+
+const LEVELS: [&str; 5] = ["", "debug", "info", "warn", "error"];
+const PLAIN: [&str; 24] = [
+    "a", "b", "c", "d", "e", "f", "x", "y", "z", "k1", "k2", "user", "id", "m", "zz", "aa", "_u", "ab", "B", "Zed", "n0", "é", "ünï", "q9",
+];
+const RAW: [&str; 5] = ["type", "match", "fn", "loop", "mod"];
+const RENAMES: [&str; 22] = [
+    "a.b", "with space", "Z", "0", "", "{x}", "é.ü", "zzz", "A", "user.name", "_", "-", "1a", "ZZ", "aaa", "~", "M", "Ab", "a b", "z.a", "lvl2", "K",
+];
+const BASE_NAMES: [&str; 6] = ["base1", "base2", "p", "q", "base.x", "w"];
+const AMBIENT_NAMES: [&str; 5] = ["amb1", "amb2", "r", "s", "amb.y"];
+const WORDS: [&str; 6] = ["text", "Rust", "hello world", "x", "0", "é"];
+
+#[derive(Debug, Clone)]
+struct RawKey {
+    ident: u32,
+    raw: bool,
+    rename: Option<(u32, u8)>,
+    optional: Option<bool>,
+    cfg: Option<bool>,
+    capture: u8,
+    vkind: u8,
+    vnum: i32,
+    place: u8,
+    attr_order: u8,
+    literal: bool,
+}
+
+fn raw_key() -> impl Strategy<Value = RawKey> {
+    (
+        (any::<u32>(), prop::bool::weighted(0.08), prop::option::weighted(0.18, (any::<u32>(), 0u8..3))),
+        (prop::option::weighted(0.25, prop::bool::weighted(0.6)), prop::option::weighted(0.2, prop::bool::weighted(0.6))),
+        (0u8..8, 0u8..6, -500i32..500, 0u8..10, any::<u8>(), any::<bool>()),
+    )
+        .prop_map(|((ident, raw, rename), (optional, cfg), (capture, vkind, vnum, place, attr_order, literal))| RawKey {
+            ident,
+            raw,
+            rename,
+            optional,
+            cfg,
+            capture,
+            vkind,
+            vnum,
+            place,
+            attr_order,
+            literal,
+        })
+}
+
+/// Sites are valid by construction: distinct identifiers, distinct final names, no reserved names,
+/// places the macro kind accepts.
+pub fn site() -> impl Strategy<Value = Site> {
+    (
+        (0u8..10, 0u8..8, 0u8..3, 0u8..2, any::<bool>()),
+        prop_oneof![
+            1 => prop::collection::vec(raw_key(), 1..=2),
+            5 => prop::collection::vec(raw_key(), 3..=5),
+            2 => prop::collection::vec(raw_key(), 6..=8),
+        ],
+        prop::option::weighted(0.35, (0u8..3, prop::collection::vec((any::<u32>(), prop::bool::weighted(0.2)), 1..=3))),
+        prop::collection::vec((any::<u32>(), prop::bool::weighted(0.2)), 0..=2),
+        any::<u32>(),
+    )
+        .prop_map(|((kind, level, rt_form, emitter, let_form), raw_keys, base, ambient, salt)| {
+            let kind = match kind {
+                0..=2 => Kind::Props,
+                3..=4 => Kind::Evt,
+                5..=6 => Kind::Emit,
+                7 => Kind::EmitEvt,
+                _ => Kind::Format,
+            };
+            let level = if matches!(kind, Kind::Props | Kind::Format) || level > 4 { 0 } else { level };
+            let mut plain: Vec<&str> = PLAIN.to_vec();
+            let mut rawp: Vec<&str> = RAW.to_vec();
+            let mut keys: Vec<Key> = Vec::new();
+            for (j, rk) in raw_keys.iter().enumerate() {
+                let (ident, raw) = if rk.raw && !rawp.is_empty() {
+                    (rawp.remove(pick(rk.ident, rawp.len())).to_string(), true)
+                } else {
+                    (plain.remove(pick(rk.ident, plain.len())).to_string(), false)
+                };
+                let num = (salt % 50) as i64 * 100 + j as i64 * 11 + rk.vnum as i64;
+                let value = match rk.vkind {
+                    0..=2 => SVal::I(num),
+                    3..=4 => SVal::S(format!("{}{}", WORDS[(rk.vnum.unsigned_abs() as usize) % WORDS.len()], j)),
+                    5 => SVal::B(rk.vnum % 2 == 0),
+                    _ => SVal::F(rk.vnum),
+                };
+                let value = if rk.vkind == 5 && rk.vnum % 3 == 0 { SVal::F(rk.vnum) } else { value };
+                let capture = match rk.capture {
+                    0..=3 => Capture::Default,
+                    4 => Capture::AsDebug,
+                    5 => Capture::AsDisplay,
+                    6 => Capture::AsValue,
+                    _ => Capture::AsDebug,
+                };
+                // how a captured *string* renders under as_debug (quoted or not) depends on value-bag's
+                // primitive detection, which is C19's subject: strings are only captured Display-like here
+                let capture = if matches!(value, SVal::S(_)) && capture == Capture::AsDebug { Capture::AsDisplay } else { capture };
+                let mut place = match rk.place {
+                    0..=2 => Place::Hole,
+                    3 => Place::HoleOnly,
+                    4 => Place::HoleInline,
+                    5..=7 => Place::Trailing,
+                    _ => Place::TrailingShorthand,
+                };
+                if kind == Kind::Props || raw {
+                    place = match place {
+                        Place::Hole | Place::HoleInline | Place::Trailing => Place::Trailing,
+                        _ => Place::TrailingShorthand,
+                    };
+                }
+                keys.push(Key {
+                    ident,
+                    raw,
+                    rename: rk.rename.map(|(p, f)| (p.to_string(), f)), // resolved below
+                    optional: rk.optional,
+                    cfg: rk.cfg,
+                    capture,
+                    value,
+                    place,
+                    attr_order: rk.attr_order,
+                    literal: rk.literal,
+                });
+            }
+            // final names: distinct, drawn from the rename pool plus every plain identifier
+            let mut taken: Vec<String> = keys.iter().filter(|k| k.rename.is_none()).map(|k| k.ident.clone()).collect();
+            if level != 0 {
+                taken.push("lvl".into());
+            }
+            for k in keys.iter_mut() {
+                if let Some((p, form)) = k.rename.clone() {
+                    let p: u32 = p.parse().unwrap();
+                    let pool: Vec<&str> = RENAMES.iter().chain(PLAIN.iter()).copied().filter(|n| !taken.iter().any(|t| t == n)).collect();
+                    let name = pool[pick(p, pool.len())].to_string();
+                    taken.push(name.clone());
+                    // attributes inside a template hole sit inside a string literal: keep braces out of there
+                    if (name.contains('{') || name.contains('}')) && matches!(k.place, Place::HoleOnly | Place::HoleInline) {
+                        k.place = Place::Hole;
+                    }
+                    k.rename = Some((name, form));
+                }
+            }
+            let names = |picks: &[(u32, bool)], pool: &[&str], avoid: &[String]| -> Vec<(String, i64)> {
+                let mut pool: Vec<String> = pool.iter().map(|s| s.to_string()).collect();
+                let own: Vec<String> = keys.iter().filter(|k| k.present()).map(|k| k.final_name().to_string()).collect();
+                let mut out: Vec<(String, i64)> = Vec::new();
+                for (n, (p, overlap)) in picks.iter().enumerate() {
+                    let name = if *overlap && !own.is_empty() { own[pick(*p, own.len())].clone() } else { pool.remove(pick(*p, pool.len())) };
+                    if out.iter().any(|(k, _)| *k == name) || avoid.contains(&name) {
+                        continue;
+                    }
+                    out.push((name, 7000 + (salt % 50) as i64 * 10 + n as i64));
+                }
+                out
+            };
+            let base = match kind {
+                Kind::Props | Kind::Format => None,
+                _ => base.map(|(form, picks)| (form, names(&picks, &BASE_NAMES, &[]))),
+            };
+            let ambient = match kind {
+                Kind::Emit | Kind::EmitEvt => names(&ambient, &AMBIENT_NAMES, &[]),
+                _ => vec![],
+            };
+            let mut site = Site { kind, level, rt_form, emitter, let_form, keys, base, ambient };
+            if site.single_cfg_key_in_match_macro() {
+                site.keys[0].cfg = None;
+            }
+            site
+        })
+}
+
+// ---------------------------------------------------------------------------------------------
+// the generator's model of a site
+
+impl Site {
+    /// (final name, display) of every key the macro-built collection must contain, `lvl` included
+    pub fn present(&self) -> Vec<(String, String, &Key)> {
+        self.keys.iter().filter(|k| k.present()).map(|k| (k.final_name().to_string(), k.display(), k)).collect()
+    }
+
+    pub fn absent(&self) -> Vec<String> {
+        let present: Vec<String> = self.present().into_iter().map(|p| p.0).collect();
+        let other: Vec<&String> = self.base.iter().flat_map(|b| b.1.iter()).chain(self.ambient.iter()).map(|(k, _)| k).collect();
+        let mut out: Vec<String> = Vec::new();
+        let mut add = |n: String| {
+            if !present.contains(&n) && !other.contains(&&n) && !out.contains(&n) && !(n == "lvl" && self.level != 0) {
+                out.push(n);
+            }
+        };
+        for k in &self.keys {
+            if !k.present() {
+                add(k.final_name().to_string());
+            }
+            if k.rename.is_some() {
+                add(k.ident.clone());
+            }
+            if k.raw {
+                add(format!("r#{}", k.ident));
+            }
+        }
+        add("__absent".into());
+        add("".into());
+        add("lvl".into());
+        if let Some(p) = present.first() {
+            add(format!("{p}x"));
+            add(p.to_uppercase());
+            if let Some((i, _)) = p.char_indices().last() {
+                add(p[..i].to_string());
+            }
+        }
+        out
+    }
+
+    /// The macro sorts the array by identifier; is it also sorted by final name? (if not: defect D1's class)
+    pub fn reorders_sort(&self) -> bool {
+        let mut arr: Vec<(&str, &str)> = self.keys.iter().filter(|k| k.cfg != Some(false)).map(|k| (k.ident.as_str(), k.final_name())).collect();
+        if self.level != 0 && self.kind != Kind::EmitEvt {
+            arr.push(("lvl", "lvl"));
+        }
+        arr.sort_by(|a, b| a.0.as_bytes().cmp(b.0.as_bytes()));
+        arr.windows(2).any(|w| w[0].1.as_bytes() > w[1].1.as_bytes())
+    }
+
+    /// Excluded by construction (side finding, not a C02 matter): `emit!`/`format!` expand to
+    /// `match (a, b, ..) { (x, y, ..) => .. }`; with exactly ONE key that carries a `#[cfg]` the scrutinee is
+    /// the 1-tuple `(a,)` but the pattern is the parenthesised `(x)`, so the call site does not compile.
+    pub fn single_cfg_key_in_match_macro(&self) -> bool {
+        matches!(self.kind, Kind::Emit | Kind::Format) && self.level == 0 && self.keys.len() == 1 && self.keys[0].cfg.is_some()
+    }
+
+    pub fn nontrivial(&self) -> bool {
+        self.keys.len() >= 3 && self.keys.iter().any(|k| k.rename.is_some() || k.optional.is_some() || k.cfg.is_some())
+    }
+
+    /// One-step reductions for delta debugging.
+    pub fn reductions(&self) -> Vec<Site> {
+        let mut out = Vec::new();
+        if self.keys.len() > 1 {
+            for i in 0..self.keys.len() {
+                let mut s = self.clone();
+                s.keys.remove(i);
+                out.push(s);
+            }
+        }
+        if self.base.is_some() {
+            let mut s = self.clone();
+            s.base = None;
+            out.push(s);
+        }
+        if !self.ambient.is_empty() {
+            let mut s = self.clone();
+            s.ambient.clear();
+            out.push(s);
+        }
+        if self.level != 0 {
+            let mut s = self.clone();
+            s.level = 0;
+            out.push(s);
+        }
+        for i in 0..self.keys.len() {
+            let k = &self.keys[i];
+            let mut push = |f: &dyn Fn(&mut Key)| {
+                let mut s = self.clone();
+                f(&mut s.keys[i]);
+                out.push(s);
+            };
+            if k.optional.is_some() {
+                push(&|k| k.optional = None);
+            }
+            if k.cfg.is_some() {
+                push(&|k| k.cfg = None);
+            }
+            if k.capture != Capture::Default {
+                push(&|k| k.capture = Capture::Default);
+            }
+            if k.in_template() && k.place != Place::Hole {
+                push(&|k| k.place = Place::Hole);
+            }
+            if k.in_template() {
+                push(&|k| k.place = Place::Trailing);
+            }
+            if k.place == Place::TrailingShorthand {
+                push(&|k| k.place = Place::Trailing);
+            }
+            if !matches!(k.value, SVal::I(_)) {
+                push(&|k| k.value = SVal::I(1));
+            }
+            // dropping a rename may collide with another final name: only when it stays distinct
+            if k.rename.is_some() && !self.keys.iter().enumerate().any(|(j, o)| j != i && o.final_name() == k.ident) {
+                push(&|k| k.rename = None);
+            }
+        }
+        out.retain(|s| !s.single_cfg_key_in_match_macro());
+        out
+    }
+}
+
+// ---------------------------------------------------------------------------------------------
+// rendering
+
+fn lit(s: &str) -> String {
+    format!("{s:?}")
+}
+
+fn ident(k: &Key) -> String {
+    if k.raw {
+        format!("r#{}", k.ident)
+    } else {
+        k.ident.clone()
+    }
+}
+
+fn attrs(k: &Key, j: usize) -> String {
+    let mut v: Vec<String> = Vec::new();
+    if let Some(on) = k.cfg {
+        v.push(format!("#[cfg({})]", if on { "verif_on" } else { "verif_off" }));
+    }
+    if let Some((name, form)) = &k.rename {
+        v.push(match form % 3 {
+            0 => format!("#[emit::key({})]", lit(name)),
+            1 => format!("#[emit::key(name: {})]", lit(name)),
+            _ => format!("#[emit::key(name: __N{j})]"),
+        });
+    }
+    if k.optional.is_some() {
+        v.push("#[emit::optional]".into());
+    }
+    match k.capture {
+        Capture::Default => {}
+        Capture::AsDebug => v.push("#[emit::as_debug]".into()),
+        Capture::AsDisplay => v.push("#[emit::as_display]".into()),
+        Capture::AsValue => v.push("#[emit::as_value]".into()),
+    }
+    if !v.is_empty() {
+        let r = k.attr_order as usize % v.len();
+        v.rotate_left(r);
+    }
+    let mut s = v.join(" ");
+    if !s.is_empty() {
+        s.push(' ');
+    }
+    s
+}
+
+fn ty(v: &SVal) -> &'static str {
+    match v {
+        SVal::I(_) => "i64",
+        SVal::S(_) => "S0",
+        SVal::B(_) => "bool",
+        SVal::F(_) => "f64",
+    }
+}
+
+fn value_lit(v: &SVal) -> String {
+    match v {
+        SVal::I(v) => format!("{v}i64"),
+        SVal::S(s) => lit(s),
+        SVal::B(b) => b.to_string(),
+        SVal::F(n) => format!("{:?}f64", *n as f64 + 0.5),
+    }
+}
+
+/// The expression written at the call site for key `j` (not for shorthand places).
+fn value_expr(k: &Key, j: usize) -> String {
+    match k.optional {
+        Some(true) => format!("Some(&__v{j})"),
+        Some(false) => format!("None::<&{}>", ty(&k.value)),
+        None => {
+            if k.literal {
+                value_lit(&k.value)
+            } else {
+                format!("__v{j}")
+            }
+        }
+    }
+}
+
+fn field(k: &Key, j: usize) -> String {
+    match k.place {
+        Place::Hole | Place::Trailing | Place::HoleInline => format!("{}{}: {}", attrs(k, j), ident(k), value_expr(k, j)),
+        Place::HoleOnly | Place::TrailingShorthand => format!("{}{}", attrs(k, j), ident(k)),
+    }
+}
+
+fn typed(k: &Key) -> String {
+    if !matches!(k.capture, Capture::Default | Capture::AsValue) {
+        return "support::Typed::None".into();
+    }
+    match &k.value {
+        SVal::I(v) => format!("support::Typed::I({v}i64)"),
+        SVal::B(b) => format!("support::Typed::B({b})"),
+        SVal::S(s) if k.optional.is_none() => format!("support::Typed::S({})", lit(s)),
+        _ => "support::Typed::None".into(),
+    }
+}
+
+pub fn render_site(i: usize, site: &Site) -> String {
+    let mut o = String::new();
+    let w = &mut o;
+    use std::fmt::Write;
+    let _ = writeln!(w, "// {}", vcore::serde_json::to_string(site).unwrap_or_default().replace('\n', " "));
+    let _ = writeln!(w, "#[allow(unused_variables, unused_mut, non_snake_case, non_upper_case_globals, unused_braces, uncommon_codepoints, mixed_script_confusables)]");
+    let _ = writeln!(w, "fn site_{i}() -> support::Outcome {{");
+
+    // ---- the generator's model of the site, as data
+    let lvl_first = site.level != 0;
+    let mut present: Vec<String> = Vec::new();
+    if lvl_first {
+        present.push(format!("(\"lvl\", {}, support::Typed::None)", lit(LEVELS[site.level as usize])));
+    }
+    for (name, disp, k) in site.present() {
+        present.push(format!("({}, {}, {})", lit(&name), lit(&disp), typed(k)));
+    }
+    let absent: Vec<String> = site.absent().iter().map(|s| lit(s)).collect();
+    let pairs = |v: &[(String, i64)]| v.iter().map(|(k, n)| format!("({}, {})", lit(k), lit(&n.to_string()))).collect::<Vec<_>>().join(", ");
+    let base_pairs = site.base.as_ref().map(|b| pairs(&b.1)).unwrap_or_default();
+    let amb_pairs = pairs(&site.ambient);
+    let mut holes: Vec<String> = Vec::new();
+    let mut tpl = format!("s{i} ");
+    let mut hn = 0;
+    for (j, k) in site.keys.iter().enumerate() {
+        if !k.in_template() || site.kind == Kind::Props {
+            continue;
+        }
+        let marker = format!("|{hn}=");
+        hn += 1;
+        tpl.push_str(&marker);
+        match k.place {
+            Place::Hole => tpl.push_str(&format!("{{{}}}", ident(k))),
+            _ => tpl.push_str(&format!("{{{}}}", field(k, j))),
+        }
+        let want = if k.present() { format!("Some({})", lit(&k.display())) } else { "None".to_string() };
+        holes.push(format!("({}, {}, {})", lit(&marker), want, lit(k.final_name())));
+    }
+    tpl.push_str("|end");
+    let _ = writeln!(
+        w,
+        "    static EXP: support::Exp = support::Exp {{ present: &[{}], absent: &[{}], base: &[{}], ambient: &[{}], holes: &[{}], end_marker: \"|end\" }};",
+        present.join(", "),
+        absent.join(", "),
+        base_pairs,
+        amb_pairs,
+        holes.join(", ")
+    );
+
+    // ---- locals
+    for (j, k) in site.keys.iter().enumerate() {
+        if let Some((name, 2)) = k.rename.as_ref().map(|(n, f)| (n, f % 3)) {
+            let _ = writeln!(w, "    const __N{j}: &str = {};", lit(name));
+        }
+        let _ = writeln!(w, "    let __v{j}: {} = {};", ty(&k.value), value_lit(&k.value));
+        if matches!(k.place, Place::HoleOnly | Place::TrailingShorthand) {
+            match k.optional {
+                Some(true) => {
+                    let _ = writeln!(w, "    let {}: Option<&{}> = Some(&__v{j});", ident(k), ty(&k.value));
+                }
+                Some(false) => {
+                    let _ = writeln!(w, "    let {}: Option<&{}> = None;", ident(k), ty(&k.value));
+                }
+                None => {
+                    let _ = writeln!(w, "    let {}: {} = __v{j};", ident(k), ty(&k.value));
+                }
+            }
+        }
+    }
+    let trailing: Vec<String> = site
+        .keys
+        .iter()
+        .enumerate()
+        .filter(|(_, k)| site.kind == Kind::Props || matches!(k.place, Place::Hole | Place::Trailing | Place::TrailingShorthand))
+        .map(|(j, k)| field(k, j))
+        .collect();
+    let trailing_args = if trailing.is_empty() { String::new() } else { format!(", {}", trailing.join(", ")) };
+
+    // base collection
+    let mut base_arg = String::new();
+    if let Some((form, kvs)) = &site.base {
+        let arr = format!("[{}]", kvs.iter().map(|(k, n)| format!("({}, {n}i64)", lit(k))).collect::<Vec<_>>().join(", "));
+        let identlike = kvs.iter().all(|(k, _)| {
+            let mut cs = k.chars();
+            matches!(cs.next(), Some(c) if c.is_ascii_alphabetic())
+                && cs.all(|c| c.is_ascii_alphanumeric() || c == '_')
+                && !RAW.contains(&k.as_str())
+                && !["lvl", "err", "trace_id", "span_id", "span_parent"].contains(&k.as_str())
+        });
+        match form % 3 {
+            1 if identlike => {
+                let body = kvs.iter().map(|(k, n)| format!("{k}: {n}i64")).collect::<Vec<_>>().join(", ");
+                let _ = writeln!(w, "    let __base = emit::props! {{ {body} }};");
+                base_arg = "props: __base, ".into();
+            }
+            // `props: &local` inside a `let`-bound evt! would borrow a temporary `&&local`
+            2 if site.kind == Kind::Emit || (site.kind == Kind::Evt && !site.let_form) => {
+                let _ = writeln!(w, "    let __base: [(&str, i64); {}] = {arr};", kvs.len());
+                base_arg = "props: &__base, ".into();
+            }
+            _ => {
+                let _ = writeln!(w, "    let __base: [(&str, i64); {}] = {arr};", kvs.len());
+                base_arg = "props: __base, ".into();
+            }
+        }
+    }
+
+    let lv = LEVELS[site.level as usize];
+    let evt_macro = if site.level == 0 { "emit::evt!".to_string() } else { format!("emit::{lv}_evt!") };
+    let emit_macro = if site.level == 0 { "emit::emit!".to_string() } else { format!("emit::{lv}!") };
+    let judge = "support::both(support::check_props(__e.props(), &EXP), support::check_msg(&__e.msg().to_string(), &EXP))";
+    match site.kind {
+        Kind::Props => {
+            let body = trailing.join(", ");
+            if site.let_form {
+                let _ = writeln!(w, "    let __p = emit::props! {{ {body} }};");
+                let _ = writeln!(w, "    let __r = support::check_props(&__p, &EXP);");
+                let _ = writeln!(w, "    __r");
+            } else {
+                let _ = writeln!(w, "    match emit::props! {{ {body} }} {{ __p => {{ let __r = support::check_props(&__p, &EXP); __r }} }}");
+            }
+        }
+        Kind::Format => {
+            let _ = writeln!(w, "    let __m: String = emit::format!({}{trailing_args});", lit(&tpl));
+            let _ = writeln!(w, "    let __r = support::check_msg(&__m, &EXP);");
+            let _ = writeln!(w, "    __r");
+        }
+        Kind::Evt => {
+            if site.let_form {
+                let _ = writeln!(w, "    let __e = {evt_macro}({base_arg}{}{trailing_args});", lit(&tpl));
+                let _ = writeln!(w, "    let __r = {judge};");
+                let _ = writeln!(w, "    __r");
+            } else {
+                let _ = writeln!(w, "    match {evt_macro}({base_arg}{}{trailing_args}) {{ __e => {{ let __r = {judge}; __r }} }}", lit(&tpl));
+            }
+        }
+        Kind::Emit | Kind::EmitEvt => {
+            let rt_arg = match site.rt_form % 3 {
+                0 => "rt: &rt",
+                1 => "rt: rt",
+                _ => "rt",
+            };
+            let _ = writeln!(w, "    let __slot = support::Slot::new();");
+            let _ = writeln!(w, "    {{");
+            if site.emitter % 2 == 0 {
+                let _ = writeln!(w, "        let __em = support::Judge {{ slot: &__slot, exp: &EXP }};");
+            } else {
+                let _ = writeln!(w, "        let __em = emit::emitter::from_fn(|__e| {{ let __r = {judge}; __slot.0.borrow_mut().push(__r); }});");
+            }
+            let _ = writeln!(
+                w,
+                "        let rt = emit::runtime::Runtime::build(__em, emit::Empty, emit::platform::thread_local_ctxt::ThreadLocalCtxt::new(), emit::Empty, emit::Empty);"
+            );
+            let call = if site.kind == Kind::Emit {
+                format!("{emit_macro}({rt_arg}, {base_arg}{}{trailing_args});", lit(&tpl))
+            } else {
+                // the level goes on the outer macro, the keys on the inner event
+                let _ = writeln!(w, "        let __evt = emit::evt!({base_arg}{}{trailing_args});", lit(&tpl));
+                format!("{emit_macro}({rt_arg}, evt: {}__evt);", if site.let_form { "&" } else { "" })
+            };
+            if site.ambient.is_empty() {
+                let _ = writeln!(w, "        {call}");
+            } else {
+                let arr = format!("[{}]", site.ambient.iter().map(|(k, n)| format!("({}, {n}i64)", lit(k))).collect::<Vec<_>>().join(", "));
+                let _ = writeln!(w, "        emit::Frame::push(rt.ctxt(), {arr}).call(|| {{ {call} }});");
+            }
+            let _ = writeln!(w, "    }}");
+            let _ = writeln!(w, "    __slot.finish()");
+        }
+    }
+    let _ = writeln!(w, "}}");
+    o
+}
+
+pub fn render_program(sites: &[Site]) -> String {
+    let mut o = String::from("// generated by /verif/harness/c02 (engine E5): one function per macro call site\nuse crate::support;\n\n#[allow(dead_code)]\ntype S0 = &'static str;\n\n");
+    for (i, s) in sites.iter().enumerate() {
+        o.push_str(&render_site(i, s));
+        o.push('\n');
+    }
+    o.push_str("pub fn run() {\n");
+    for i in 0..sites.len() {
+        o.push_str(&format!("    support::report({i}, std::panic::catch_unwind(site_{i}));\n"));
+    }
+    o.push_str("}\n");
+    o
+}
+
+// ---------------------------------------------------------------------------------------------
+// compile + run
+
+#[derive(Debug, Clone, PartialEq)]
+pub enum SiteOutcome {
+    Ok(u32),
+    Fail(String, String),
+}
+
+pub struct Runner {
+    pub dir: PathBuf,
+    cache: RefCell<HashMap<String, SiteOutcome>>,
+    pub stats: RefCell<BTreeMap<String, f64>>,
+    /// harness-side problems (a generated program that does not build or run): the run is inconclusive
+    pub problems: RefCell<Vec<String>>,
+}
+
+fn site_key(s: &Site) -> String {
+    vcore::serde_json::to_string(s).unwrap_or_default()
+}
+
+impl Runner {
+    pub fn new() -> Runner {
+        let dir = std::env::var("VERIF_GEN_DIR").map(PathBuf::from).unwrap_or_else(|_| PathBuf::from(HARNESS_DIR).join("target").join("gen-c02"));
+        Runner { dir, cache: RefCell::new(HashMap::new()), stats: RefCell::new(BTreeMap::new()), problems: RefCell::new(Vec::new()) }
+    }
+
+    fn write_project(&self, sites: &[Site]) -> Result<(), String> {
+        let src = self.dir.join("src");
+        std::fs::create_dir_all(&src).map_err(|e| format!("mkdir {}: {e}", src.display()))?;
+        let features = "\"std\", \"rand\", \"sval\", \"serde\", \"implicit_rt\", \"implicit_internal_rt\"";
+        let manifest = format!(
+            "[package]\nname = \"gen-c02\"\nversion = \"0.0.0\"\nedition = \"2021\"\n\n[workspace]\n\n[dependencies]\nemit = {{ path = \"{REPO}\", features = [{features}] }}\n\n[profile.dev]\ndebug = 0\nincremental = true\n"
+        );
+        let write = |p: PathBuf, text: &str| -> Result<(), String> {
+            // keep mtimes stable when nothing changed (cargo fingerprints)
+            if std::fs::read_to_string(&p).map(|old| old == text).unwrap_or(false) {
+                return Ok(());
+            }
+            std::fs::write(&p, text).map_err(|e| format!("write {}: {e}", p.display()))
+        };
+        write(self.dir.join("Cargo.toml"), &manifest)?;
+        let lock = PathBuf::from(HARNESS_DIR).join("Cargo.lock");
+        if !self.dir.join("Cargo.lock").exists() {
+            std::fs::copy(&lock, self.dir.join("Cargo.lock")).map_err(|e| format!("copy {}: {e}", lock.display()))?;
+        }
+        write(src.join("main.rs"), "#![allow(unexpected_cfgs)]\nmod sites;\nmod support;\n\nfn main() {\n    sites::run();\n}\n")?;
+        write(src.join("support.rs"), SUPPORT_RS)?;
+        write(src.join("sites.rs"), &render_program(sites))?;
+        Ok(())
+    }
+
+    /// Generate, compile and run one program; one outcome per site.
+    pub fn run_program(&self, sites: &[Site]) -> Result<Vec<SiteOutcome>, String> {
+        self.write_project(sites)?;
+        let target = self.dir.join("target");
+        let t0 = std::time::Instant::now();
+        let out = Command::new("cargo")
+            .args(["build", "--offline", "--quiet"])
+            .current_dir(&self.dir)
+            .env("CARGO_TARGET_DIR", &target)
+            .env("RUSTFLAGS", "--cfg verif_on --cfg emit_rs_emit_verif -Awarnings")
+            .env_remove("CARGO_ENCODED_RUSTFLAGS")
+            .output()
+            .map_err(|e| format!("cannot run cargo: {e}"))?;
+        *self.stats.borrow_mut().entry("compile_s".into()).or_default() += t0.elapsed().as_secs_f64();
+        *self.stats.borrow_mut().entry("programs".into()).or_default() += 1.0;
+        if !out.status.success() {
+            let err = String::from_utf8_lossy(&out.stderr);
+            let first: Vec<&str> = err.lines().filter(|l| !l.trim().is_empty()).take(40).collect();
+            return Err(format!("generated program does not compile ({} sites):\n{}", sites.len(), first.join("\n")));
+        }
+        let run = Command::new(target.join("debug").join("gen-c02")).output().map_err(|e| format!("cannot run generated program: {e}"))?;
+        let text = String::from_utf8_lossy(&run.stdout);
+        let mut res: Vec<Option<SiteOutcome>> = vec![None; sites.len()];
+        for line in text.lines() {
+            let mut it = line.splitn(4, ' ');
+            if it.next() != Some("SITE") {
+                continue;
+            }
+            let Some(i) = it.next().and_then(|s| s.parse::<usize>().ok()) else { continue };
+            if i >= sites.len() {
+                continue;
+            }
+            match it.next() {
+                Some("ok") => res[i] = Some(SiteOutcome::Ok(it.next().and_then(|s| s.trim().parse().ok()).unwrap_or(0))),
+                Some("FAIL") => {
+                    let rest = it.next().unwrap_or("");
+                    let (sig, detail) = rest.split_once(' ').unwrap_or((rest, ""));
+                    res[i] = Some(SiteOutcome::Fail(sig.to_string(), detail.to_string()));
+                }
+                _ => {}
+            }
+        }
+        if let Some(missing) = res.iter().position(|r| r.is_none()) {
+            return Err(format!(
+                "generated program reported nothing for site {missing} (exit {:?}): {}",
+                run.status.code(),
+                String::from_utf8_lossy(&run.stderr).lines().take(10).collect::<Vec<_>>().join(" | ")
+            ));
+        }
+        let res: Vec<SiteOutcome> = res.into_iter().map(|r| r.unwrap()).collect();
+        for (s, r) in sites.iter().zip(res.iter()) {
+            self.cache.borrow_mut().insert(site_key(s), r.clone());
+        }
+        Ok(res)
+    }
+
+    /// Delta debugging over a failing site's spec: all one-step reductions are compiled as one
+    /// program per round; a reduction that fails with the same signature replaces the site.
+    pub fn shrink(&self, site: &Site, sig: &str) -> Site {
+        let mut cur = site.clone();
+        for _round in 0..12 {
+            let cands = cur.reductions();
+            if cands.is_empty() {
+                break;
+            }
+            let Ok(res) = self.run_program(&cands) else { break };
+            match cands.iter().zip(res.iter()).find(|(_, r)| matches!(r, SiteOutcome::Fail(s, _) if s == sig)) {
+                Some((c, _)) => cur = c.clone(),
+                None => break,
+            }
+        }
+        cur
+    }
+
+    pub fn cached(&self, site: &Site) -> Option<SiteOutcome> {
+        self.cache.borrow().get(&site_key(site)).cloned()
+    }
+
+    pub fn sig_prefix(site: &Site) -> &'static str {
+        if site.reorders_sort() {
+            "macro-renamed-key/"
+        } else {
+            ""
+        }
+    }
+
+    /// The oracle of the `macro-sites` generator: look the site's outcome up (compile a one-site
+    /// program on replay) and translate it.
+    pub fn check(&self, site: &Site, cx: &mut Cx) -> Res {
+        cx.class(match site.kind {
+            Kind::Props => "site:props!",
+            Kind::Evt => "site:evt!",
+            Kind::Emit => "site:emit!(rt)",
+            Kind::EmitEvt => "site:emit!(evt:)",
+            Kind::Format => "site:format!",
+        });
+        cx.class_if(site.level != 0, "site:levelled");
+        cx.class_if(site.keys.iter().any(|k| k.rename.is_some()), "site:renamed");
+        cx.class_if(site.keys.iter().any(|k| k.raw), "site:raw-ident");
+        cx.class_if(site.keys.iter().any(|k| k.optional == Some(false)), "site:optional-none");
+        cx.class_if(site.keys.iter().any(|k| k.optional == Some(true)), "site:optional-some");
+        cx.class_if(site.keys.iter().any(|k| k.cfg == Some(false)), "site:cfg-off");
+        cx.class_if(site.keys.iter().any(|k| k.cfg == Some(true)), "site:cfg-on");
+        cx.class_if(site.keys.iter().any(|k| k.capture != Capture::Default), "site:capture-attr");
+        cx.class_if(site.keys.iter().any(|k| k.in_template()) && site.kind != Kind::Props, "site:holes");
+        cx.class_if(site.base.is_some(), "site:base-props");
+        cx.class_if(!site.ambient.is_empty(), "site:ambient");
+        cx.class_if(site.reorders_sort(), "renamed-reorders-sort");
+        cx.nontrivial(site.nontrivial());
+        let outcome = match self.cached(site) {
+            Some(o) => o,
+            None if !cx.replaying => {
+                // the program this site belongs to did not build / run (already reported)
+                cx.class("program-failed");
+                return Ok(());
+            }
+            None => match self.run_program(std::slice::from_ref(site)) {
+                Ok(mut v) => v.remove(0),
+                Err(e) => {
+                    // not a verdict about emit: the caller turns this into exit 2
+                    cx.class("program-failed");
+                    self.problems.borrow_mut().push(e);
+                    return Ok(());
+                }
+            },
+        };
+        match outcome {
+            SiteOutcome::Ok(dc) => {
+                for _ in 0..dc {
+                    cx.dont_care();
+                }
+                Ok(())
+            }
+            SiteOutcome::Fail(sig, detail) => cx.fail(format!("{}{sig}", Self::sig_prefix(site)), format!("{detail} -- site: {}", site_source_hint(site))),
+        }
+    }
+}
+
+fn site_source_hint(site: &Site) -> String {
+    let src = render_site(0, site);
+    src.lines().filter(|l| l.contains("emit::") && !l.contains("Runtime::build") && !l.contains("support::Exp")).map(|l| l.trim()).collect::<Vec<_>>().join(" ")
+}
